@@ -342,7 +342,12 @@ fn policies(spec: &StructSpec, thorough: bool) -> Vec<Vec<Clause>> {
                 continue;
             }
             if full_pairs || j == i + 1 || (i + j) % 7 == 0 {
-                out.push(vec![p1[i].clone(), p1[j].clone()]);
+                // both textual orders of a pair occur (alternating)
+                if (i + j) % 2 == 0 {
+                    out.push(vec![p1[i].clone(), p1[j].clone()]);
+                } else {
+                    out.push(vec![p1[j].clone(), p1[i].clone()]);
+                }
             }
         }
     }
